@@ -24,6 +24,9 @@ fn main() {
         return;
     }
     let prop = args[1].as_str();
+    if args[2] == "--replay" {
+        std::process::exit(replay(prop, args.get(3).map(|s| s.as_str()).unwrap_or("")));
+    }
     let tier = match args[2].as_str() { "quick" => Tier::Quick, "thorough" => Tier::Thorough, _ => { eprintln!("bad tier"); std::process::exit(2) } };
     let seed: u64 = std::env::var("VERIF_SEED").ok().and_then(|s| s.parse().ok()).unwrap_or(1);
     pdfmon::panicmon::install();
@@ -52,4 +55,36 @@ fn main() {
         _ => { eprintln!("unknown property {}", prop); std::process::exit(2); }
     }
     std::process::exit(run.finish());
+}
+
+/// Re-run the witness stored in a replay file as far as it is self-contained: inputs saved as files (C01/C14/C17-style
+/// witnesses) are re-walked in all four configurations under the panic monitor; for the others the stored minimal case
+/// (choice tape, labels, rendered input, expected/observed) is printed together with the command that regenerates it.
+fn replay(prop: &str, path: &str) -> i32 {
+    let Ok(text) = std::fs::read_to_string(path) else { eprintln!("cannot read {}", path); return 2 };
+    let Ok(v) = serde_json::from_str::<serde_json::Value>(&text) else { eprintln!("not a replay file"); return 2 };
+    println!("property : {}", v["property"].as_str().unwrap_or(prop));
+    println!("signature: {}", v["signature"].as_str().unwrap_or(""));
+    println!("what     : {}", v["what"].as_str().unwrap_or(""));
+    println!("seed/tier: {} / {}", v["seed"], v["tier"].as_str().unwrap_or(""));
+    println!("witness  : {}", serde_json::to_string_pretty(&v["witness"]).unwrap_or_default());
+    let mut input: Option<String> = None;
+    fn find(v: &serde_json::Value, out: &mut Option<String>) { match v { serde_json::Value::Object(m) => { for (k, x) in m { if k == "input_file" { if let Some(s) = x.as_str() { *out = Some(s.to_string()); } } find(x, out); } } serde_json::Value::Array(a) => { for x in a { find(x, out); } } _ => {} } }
+    find(&v["witness"], &mut input);
+    if let Some(f) = input {
+        if let Ok(bytes) = std::fs::read(&f) {
+            pdfmon::panicmon::install();
+            let mut bad = 0;
+            for cfg in pdfmon::doc::CFGS {
+                let mut w = pdfmon::walk::WalkStats::new();
+                let r = pdfmon::panicmon::guard(|| pdfmon::with_file!(bytes.clone(), cfg, b"", |f| match f { Ok(f) => { pdfmon::walk::walk(&f, &mut w, true); "loaded".to_string() } Err(e) => format!("load error: {}", pdfmon::doc::root_kind(&e)) }));
+                match r { Ok(s) => println!("[{}] {} ; {} calls, {} panics", cfg.name(), s, w.n_calls, w.panics.len()), Err(p) => { bad += 1; println!("[{}] PANIC {}", cfg.name(), p.describe()); } }
+                for (e, p) in &w.panics { bad += 1; println!("    {} panicked: {}", e, p.describe()); }
+            }
+            println!("(stack overflows / aborts / budget overruns only show in the child-process run: ./check {} quick)", prop);
+            return if bad > 0 { 1 } else { 0 };
+        }
+    }
+    println!("to regenerate: VERIF_SEED={} ./check {} {}", v["seed"], prop, v["tier"].as_str().unwrap_or("quick").to_lowercase());
+    0
 }
